@@ -56,7 +56,7 @@ def alterations(draw):
         return {"alter": {"kind": "additional_group", "value": ["tuple", draw(gen_const.const_groups(3))]}, "min_version": 7,
                 "_label": "altered_code"}
     kind = draw(st.sampled_from(["operand", "operand", "operand", "additional", "additional_fn", "docstring", "names",
-                                 "varnames", "argname", "co_name", "filename", "global_name"]))
+                                 "varnames", "argname", "co_name", "filename", "global_name", "freevar_name", "kwonly_name"]))
     if kind in ("operand", "additional", "additional_fn"):
         val = draw(gen_const.const_specs(max_leaves=8))
     else:
@@ -110,7 +110,7 @@ def fixed_cases(big=False):
         out.append({"alter": {"kind": "additional_group", "value": ["tuple", fam[:4]]}, "min_version": 7, "normalize": False, "_label": "altered_code"})
         out.append({"alter": {"kind": "additional_group", "value": ["tuple", [["tuple", [f, ["float", gen_const.f2h(1.0)]]] for f in fam[:4]]]},
                     "min_version": 7, "normalize": False, "_label": "altered_code"})
-    for kind in ["docstring", "names", "varnames", "argname", "co_name", "filename", "global_name"]:
+    for kind in ["docstring", "names", "varnames", "argname", "co_name", "filename", "global_name", "freevar_name", "kwonly_name"]:
         for val in ["\ud800", "a\udc80"]:
             for norm in (False, True):
                 out.append({"alter": {"kind": kind, "value": val}, "min_version": 7, "normalize": norm, "_label": "altered_code"})
